@@ -674,7 +674,7 @@ def throttle_case(arg):
     n_probe = len(probe.conn_log)
     srv = base_server(kex=kexl, keys=['ssh-ed25519'])
     srv.throttle_after = n_probe
-    srv.throttle_answer = answer
+    srv.throttle_answer = F.PENDING if answer == 'PENDING' else answer      # PENDING: accepted, then silence (the check must still end after its 1.5 s)
     net = F.FakeNet({'s.test': srv})
     net.recv_budget = 200000
     st, out = F.run_main(['-n', 's.test'], net)
@@ -683,6 +683,8 @@ def throttle_case(arg):
     if n_probe > 1 + 1 + 9:
         fails.append({'input': dict(inp, **{'class': 'probe-connections-repeated-name'}), 'got': {'probe connections': n_probe}, 'want': 'at most 1 + 1 host-key type + 9 group-exchange probes'})
     extra = len(srv.conn_log) - n_probe
+    if st == 99:
+        fails.append({'input': dict(inp, **{'class': 'rate-check-never-ends'}), 'got': 'still polling after 20000 select() calls / 200000 reads', 'want': 'the rate check ends after its time limit (1.5 s)'})
     if extra > 38 or st == 99:
         fails.append({'input': inp, 'got': {'rate-check connections': extra}, 'want': 'at most 38'})
     if any(not c['closed'] for c in srv.conn_log):
@@ -762,7 +764,7 @@ work.extend(['ssh1'] * 4)
 for n_addr in (2, 3):
     res.append(multiaddr_case(n_addr))
 work.extend(['multiaddr'] * 2)
-thr = [(a, d) for a in (b'Exceeded MaxStartups\r\n', None, b'\x00\x01garbage', b'HTTP/1.1 400\r\n', socket.timeout('timed out')) for d in (False, True)]
+thr = [(a, d) for a in (b'Exceeded MaxStartups\r\n', None, b'\x00\x01garbage', b'HTTP/1.1 400\r\n', socket.timeout('timed out'), 'PENDING') for d in (False, True)]
 res += run_pool(throttle_case, thr)
 work.extend(thr)
 failures, per = [], {}
